@@ -40,8 +40,7 @@ Proof. vm_compute. reflexivity. Qed.
 
 (* kronecker, jacobi (odd positive n), legendre (odd primes) against the definition of the symbols *)
 Definition kronecker_check (n a : Z) : bool :=
-  res_is Z.eqb (nt_kronecker GMP a n) (kronecker_brute a n) &&
-  ((n =? 0) || res_is Z.eqb (nt_kronecker BOOST a n) (kronecker_brute a n)) &&
+  both (fun c => res_is Z.eqb (nt_kronecker c a n) (kronecker_brute a n)) &&
   (negb ((0 <? n) && Z.odd n) || both (fun c => res_is Z.eqb (nt_jacobi c a n) (kronecker_brute a n))) &&
   (negb ((2 <? n) && is_prime n) || both (fun c => res_is Z.eqb (nt_legendre c a n) (legendre_brute a n))).
 Lemma kronecker_bounded :
